@@ -180,6 +180,25 @@ ROUND9 = {
  "C20": "Round 9: an on-demand scan of the HIR tables keeps the last id recorded for a syntax pointer, like the maps it replaces.",
 }
 
+# clauses added after the second blind round 10 (agents given a file to start reading in; seeded/ROUNDS.md); appended after ROUND9
+ROUND10 = {
+ "C01": "Round 10: a function of a rewriting pass that is handed a sub-term looks at it before it returns; string_len and string_get count in one unit; the Go emitter filters nothing it has built.",
+ "C02": "Round 10: a shortcut in front of the keyword table is evaluated on all 25 keywords; a name ledger entry excuses one provenance, not a slot; tuple-bound names are followed per component.",
+ "C03": "Round 10: a position found by searching one list indexes that list only; type parameters are substituted simultaneously also where the loop is a fold.",
+ "C04": "Round 10: Parser::eof costs no stuck-parser fuel; ast::lower never clones a lowered expression; a byte column is never converted as a wide column.",
+ "C05": "Round 10: every look-up in the function table sits in an arm for a non-local resolution; the capture walk visits every sub-term (shared with C08).",
+ "C06": "Round 10: no filtering or shortening call on a goast-typed collection in the Go emitter (resolved calls, expected zero).",
+ "C07": "Round 10: the inherent-method index keeps generic definitions only, also when it is collected from an iterator chain; folds are loops for the simultaneity rule.",
+ "C08": "Round 10: the Go type of a field read comes from the final definition, not from the node; no closure literal is answered from another occurrence's record.",
+ "C10": "Round 10: literal nodes are built where the literal token is read only; no cast in a single-width arm loses values of that width; string helpers count in one unit.",
+ "C11": "Round 10: the multi-line string rule follows the CST accessors; no letter-case question in the front end (shared with C05).",
+ "C12": "Round 10: no wide-to-byte column conversion beside LineIndex::line_col (resolved calls).",
+ "C14": "Round 10: a fact recomputed from a type when an artifact is read back is computed by a complete traversal (R07.2 over the artifact layer).",
+ "C17": "Round 10: impl names built by the expression compiler take the receiver's type, never a type from the impl table; trait and type are rendered in full (shared with C19).",
+ "C19": "Round 10: gensym prefixes chosen by a helper or a match are followed; a function type's name delimits its parameter list; shortcuts in the keyword test are evaluated.",
+ "C20": "Round 10: the type traversals of typer/results.rs (what hover reads) are audited like the solver's.",
+}
+
 CLAIMED = {
  "C01": dict(
    text="Semantic preservation is NOT decided. Decided on every arm of every pass: pass totality (no catch-all over the input IR, anchor "
@@ -370,6 +389,8 @@ def main():
                 c["text"] = c["text"] + " " + ROUND8[pid]
             if pid in ROUND9:
                 c["text"] = c["text"] + " " + ROUND9[pid]
+            if pid in ROUND10:
+                c["text"] = c["text"] + " " + ROUND10[pid]
             m["checks"].append({
                 "property_id": pid,
                 "quick_cmd": f"./check {pid} --tier quick",
